@@ -27,6 +27,7 @@ class PGen:
         self.n_bot = 0
         self.n_act = 0
         self.subflows = []
+        self.uses_ext = False
 
     def user(self):
         self.n_user += 1
@@ -63,7 +64,13 @@ class PGen:
                 out.append({"k": "set", "var": "x%d" % d.randint(0, 1, key, s, "v"), "val": d.randint(0, 3, key, s, "val")})
             elif k == "if":
                 v = "x%d" % d.randint(0, 1, key, s, "v")
-                out.append({"k": "set", "var": v, "val": d.randint(0, 2, key, s, "sv")})
+                if d.chance(0.35, key, s, "ext"):
+                    # a context variable the application supplies with the history (a ContextUpdate event in front of the first
+                    # user intent), never assigned by the flow: two histories with the same intents can take different branches
+                    v = "ext"
+                    self.uses_ext = True
+                else:
+                    out.append({"k": "set", "var": v, "val": d.randint(0, 2, key, s, "sv")})
                 out.append({"k": "if", "var": v, "op": d.choice(["==", "<", ">"], key, s, "op"), "c": d.randint(0, 2, key, s, "c"),
                             "then": self.block(depth + 1, (key, s, "t"), allow_user), "else": self.block(depth + 1, (key, s, "e"), allow_user) if d.chance(0.6, key, s, "he") else None})
             elif k == "while":
@@ -101,7 +108,7 @@ class PGen:
     def program(self):
         first = self.user()
         body = [first, self.bot()] + self.block(0, "main")
-        return {"body": body, "subflows": [s for s in self.subflows if s]}
+        return {"body": body, "subflows": [s for s in self.subflows if s], "uses_ext": self.uses_ext}
 
 
 def action_result(name, p):
@@ -172,11 +179,11 @@ class Leave(Exception):
     pass
 
 
-def reference_run(prog, intents):
+def reference_run(prog, intents, init_vars=None):
     """Reference semantics: returns per user intent (decisions, vars at Listen)."""
     subs = {s["name"]: s["body"] for s in prog["subflows"]}
     results = []
-    state = {"vars": {}, "gen": None}
+    state = {"vars": dict(init_vars or {}), "gen": None}
 
     def run(body):
         for s in body:
@@ -244,12 +251,12 @@ def reference_run(prog, intents):
     return results
 
 
-def follow_intents(prog, d, n_max=12):
+def follow_intents(prog, d, n_max=12, init_vars=None, key="leave"):
     """A user that follows the flow, leaving it at a seeded point with an unexpected intent."""
     subs = {s["name"]: s["body"] for s in prog["subflows"]}
     # walk the reference to know which intent is expected next
     intents = []
-    leave_at = d.randint(0, n_max, "leave") if d.chance(0.5, "leaves") else None
+    leave_at = d.randint(0, n_max, key) if d.chance(0.5, key, "s") else None
     ref_state = {"gen": None}
     first = prog["body"][0]["intent"]
     expected = first
@@ -263,13 +270,13 @@ def follow_intents(prog, d, n_max=12):
         if it != expected:
             break  # what happens after the user left the flow is not pinned by the property: stop here
         # recompute the expectation by running the reference on the whole history (cheap)
-        expected = _next_expected(prog, intents) or first
+        expected = _next_expected(prog, intents, init_vars) or first
     return intents
 
 
-def _next_expected(prog, intents):
+def _next_expected(prog, intents, init_vars=None):
     subs = {s["name"]: s["body"] for s in prog["subflows"]}
-    vars_ = {}
+    vars_ = dict(init_vars or {})
 
     def run(body):
         for s in body:
@@ -341,7 +348,7 @@ class C14(Prop):
         "stub": ["the user (simulated client feeding UserIntent events)", "custom actions act0..actN (deterministic function, scheduler-chosen latency)", "event loop clock (SimLoop)", "uuid / wall clock seams"],
     }
     assumptions = ["the generated subset avoids constructs whose Colang 1.0 semantics is a heuristic (competing flows, wildcards, priorities)", "compared are decisions (bot intents, action starts with evaluated parameter, Listen) and program variables at each Listen, not the grouping of ContextUpdate events"]
-    expected_probes = ["program_with_while", "program_with_subflow", "program_with_action_result_branch", "user_left_flow", "reasked_concurrently", "reasked_after_dynamic_flow"]
+    expected_probes = ["sibling_conversation", "direct_decision_function_calls", "program_with_while", "program_with_subflow", "program_with_action_result_branch", "user_left_flow", "reasked_concurrently", "reasked_after_dynamic_flow"]
     ddmin_paths = [("intents",), ("program", "body"), ("program", "subflows", "*", "body")]
     quick_runs = 240
     thorough_runs = 20000
@@ -353,8 +360,14 @@ class C14(Prop):
 
     def generate(self, d, index, tier):
         prog = PGen(d).program()
-        intents = follow_intents(prog, d, n_max=d.randint(3, 10, "nint"))
-        return {"program": prog, "intents": intents, "lat_seed": d.randint(0, 1 << 30, "lat"), "order_seed": d.randint(0, 1 << 30, "ord")}
+        sc = {"program": prog, "lat_seed": d.randint(0, 1 << 30, "lat"), "order_seed": d.randint(0, 1 << 30, "ord")}
+        ext = d.choice([0, 1, 2], "ext") if prog.get("uses_ext") else None
+        sc["ext"] = ext
+        sc["intents"] = follow_intents(prog, d, n_max=d.randint(3, 10, "nint"), init_vars={"ext": ext} if ext is not None else None)
+        # a sibling conversation: other value of the supplied variable, its own way through the flow
+        ext2 = d.choice([x for x in (0, 1, 2) if x != ext], "ext2") if prog.get("uses_ext") else None
+        sc["sibling"] = {"ext": ext2, "intents": follow_intents(prog, d, n_max=d.randint(3, 10, "nint2"), init_vars={"ext": ext2} if ext2 is not None else None, key="leave2")}
+        return sc
 
     def execute(self, sc):
         from nemoguardrails import RailsConfig
@@ -404,12 +417,13 @@ class C14(Prop):
                 out.inconclusive = "program did not load: %s" % type(e).__name__
                 out.digest = tr.digest()
                 return out
-            ref = reference_run(prog, sc["intents"])
+            iv = {"ext": sc["ext"]} if sc.get("ext") is not None else None
+            ref = reference_run(prog, sc["intents"], iv)
             # an intent of the flow itself arriving where another one is expected (e.g. the first intent again) is
             # heuristic territory in Colang 1.0 (interruption/restart rules): no verdict on such histories
             flow_intents = set(_collect(prog, "user"))
             for k, it in enumerate(sc["intents"]):
-                exp = _next_expected(prog, sc["intents"][:k]) if k else prog["body"][0]["intent"]
+                exp = _next_expected(prog, sc["intents"][:k], iv) if k else prog["body"][0]["intent"]
                 if it != exp and (it in flow_intents or k != len(sc["intents"]) - 1):
                     out.inconclusive = "history leaves the flow with one of the flow's own intents or continues after leaving it"
                     out.digest = tr.digest()
@@ -438,7 +452,7 @@ class C14(Prop):
 
             async def main(loop):
                 holder["loop"] = loop
-                events = []
+                events = [{"type": "ContextUpdate", "data": dict(iv)}] if iv else []
                 # closed loop on the used instance
                 for k, it in enumerate(sc["intents"]):
                     events.append({"type": "UserIntent", "intent": it})
@@ -461,7 +475,7 @@ class C14(Prop):
                             out.violate("not-structured-program", "variable-value", "after intents %r variable $%s is %r, expected %r" % (sc["intents"][: k + 1], v, cvars.get(v), val))
                             return
                     events.extend(new)
-                    if k > 0 and sc["intents"][k] != _next_expected(prog, sc["intents"][:k]):
+                    if k > 0 and sc["intents"][k] != _next_expected(prog, sc["intents"][:k], iv):
                         out.probe("user_left_flow")
                 # ---- history-only: re-ask the prefixes -------------------------------------------
                 od = Draws(sc.get("order_seed", 0))
@@ -472,16 +486,99 @@ class C14(Prop):
                     out.evaluations += 1
                     fresh_answers.append(decisions_of(new, cl))
                 order = od.shuffle(list(range(len(histories))), "reask")
+                cu = [{"type": "ContextUpdate", "data": dict(iv)}] if iv else []  # programs that read $ext always get it supplied
                 other = [{"type": "UserIntent", "intent": "other"}, {"type": "UserIntent", "intent": prog["body"][0]["intent"]}]
                 for j in order:
                     if od.chance(0.5, "interleave", j):
-                        await ask(used, other[: 1 + od.index(2, "olen", j)])
+                        await ask(used, cu + other[: 1 + od.index(2, "olen", j)])
                         out.evaluations += 1
                     new, cl = await ask(used, histories[j])
                     out.evaluations += 1
                     got = decisions_of(new, cl)
                     if got != fresh_answers[j]:
                         out.violate("depends-on-earlier-calls", "sequential-reask", "history %r: the used instance decides %r, a fresh instance decides %r" % (sc["intents"][: j + 1], got, fresh_answers[j]))
+                        return
+                # ---- a sibling conversation on the used instance: other supplied context, its own way through the flow ----
+                sib = sc.get("sibling") or {}
+                sib_hist = []
+                if sib.get("intents"):
+                    siv = {"ext": sib["ext"]} if sib.get("ext") is not None else None
+                    ok_sib = True
+                    for k, it in enumerate(sib["intents"]):
+                        exp = _next_expected(prog, sib["intents"][:k], siv) if k else prog["body"][0]["intent"]
+                        if it != exp and (it in flow_intents or k != len(sib["intents"]) - 1):
+                            ok_sib = False
+                    if ok_sib:
+                        out.probe("sibling_conversation")
+                        sref = reference_run(prog, sib["intents"], siv)
+                        # the fresh instance is asked first and completely: a reference call between two calls on the used instance
+                        # would itself disturb whatever the used instance (or the module) remembers from its previous call
+                        ev_f = [{"type": "ContextUpdate", "data": dict(siv)}] if siv else []
+                        fr = make_runtime()
+                        fresh_sib = []
+                        for k, it in enumerate(sib["intents"]):
+                            ev_f.append({"type": "UserIntent", "intent": it})
+                            new_f, cl_f = await ask(fr, ev_f)
+                            out.evaluations += 1
+                            fresh_sib.append(decisions_of(new_f, cl_f))
+                            ev_f.extend(new_f)
+                        # used instance: the first conversation's last history once more, then the sibling, turn by turn
+                        await ask(used, histories[-1])
+                        ev_u = [{"type": "ContextUpdate", "data": dict(siv)}] if siv else []
+                        for k, it in enumerate(sib["intents"]):
+                            ev_u.append({"type": "UserIntent", "intent": it})
+                            sib_hist.append(list(ev_u))
+                            new_u, cl_u = await ask(used, ev_u)
+                            out.evaluations += 1
+                            du, df = decisions_of(new_u, cl_u), fresh_sib[k]
+                            tr.log("sibling", k, it, du, df)
+                            if du != df:
+                                out.violate("depends-on-earlier-calls", "sibling-conversation", "sibling history (supplied $ext=%r, intents %r): the used instance decides %r, a fresh instance decides %r" % (sib.get("ext"), sib["intents"][: k + 1], du, df))
+                                return
+                            if df != [tuple(x) for x in sref[k][0]]:
+                                out.violate("not-structured-program", _mismatch_kind(df, sref[k][0]), "with supplied $ext=%r after intents %r the runtime decided %r, the structured program semantics demand %r" % (sib.get("ext"), sib["intents"][: k + 1], df, sref[k][0]))
+                                return
+                            ev_u.extend(new_u)
+                        # and the first conversation again
+                        for j in order[:3]:
+                            new, cl = await ask(used, histories[j])
+                            out.evaluations += 1
+                            got = decisions_of(new, cl)
+                            if got != fresh_answers[j]:
+                                out.violate("depends-on-earlier-calls", "after-sibling-conversation", "history %r (supplied $ext=%r) asked again after the sibling conversation: the used instance decides %r, a fresh instance decides %r" % (sc["intents"][: j + 1], sc.get("ext"), got, fresh_answers[j]))
+                                return
+                # ---- the decision function itself on histories without event identifiers (what an application that keeps its own
+                # event list may pass): alternating between the two conversations on the used instance's flow configuration ----
+                from nemoguardrails.colang.v1_0.runtime.flows import compute_next_steps
+
+                def strip(h):
+                    return [{k: v for k, v in e.items() if k not in ("uid", "event_created_at", "source_uid")} for e in h]
+
+                def steps_brief(st):
+                    return [(e.get("type"), e.get("intent") or e.get("action_name") or e.get("flow_id")) for e in st]
+
+                pool = [("first", j, strip(h)) for j, h in enumerate(histories)] + [("sibling", j, strip(h)) for j, h in enumerate(sib_hist)]
+                pool = od.shuffle(pool, "direct-order")[:12]
+                fresh_cfg = make_runtime()
+                wants = []
+                for (who, j, h) in pool:  # all reference answers first (see above)
+                    try:
+                        wants.append(steps_brief(compute_next_steps(h, make_runtime().flow_configs, rails_config=fresh_cfg.config, processing_log=[])))
+                    except control.SimControl:
+                        raise
+                    except Exception as e:
+                        wants.append(("raised", type(e).__name__))
+                for (who, j, h), want in zip(pool, wants):
+                    try:
+                        got = steps_brief(compute_next_steps(h, used.flow_configs, rails_config=used.config, processing_log=[]))
+                    except control.SimControl:
+                        raise
+                    except Exception as e:
+                        got = ("raised", type(e).__name__)
+                    out.evaluations += 1
+                    out.probe("direct_decision_function_calls")
+                    if got != want:
+                        out.violate("depends-on-earlier-calls", "compute_next_steps", "compute_next_steps on the %s conversation's history #%d (events without identifiers) after other histories were evaluated for the same flow configuration returns %r; on a fresh configuration %r" % (who, j, got, want))
                         return
                 # concurrently
                 if len(histories) >= 2:
@@ -500,7 +597,7 @@ class C14(Prop):
                             return
                 # after dynamic flows were registered on the instance
                 first = prog["body"][0]["intent"]
-                dyn = [{"type": "UserIntent", "intent": "other"}, {"type": "start_flow", "flow_id": "dyn1", "flow_body": "user %s\nbot hijacked\nuser i1\nbot hijacked again" % first}]
+                dyn = cu + [{"type": "UserIntent", "intent": "other"}, {"type": "start_flow", "flow_id": "dyn1", "flow_body": "user %s\nbot hijacked\nuser i1\nbot hijacked again" % first}]
                 try:
                     await used.generate_events(dyn)
                     out.probe("reasked_after_dynamic_flow")
